@@ -25,6 +25,56 @@ use std::collections::BTreeMap;
 use std::panic::AssertUnwindSafe;
 use verif_harness::*;
 
+/// Byte strings on request / response lines. Lower-case hex (`-` = empty) or, for a long string
+/// that is a short unit repeated, the compact notation `<unit>*<n>` (= the unit cycled to exactly
+/// `n` bytes), optionally after one leading byte: `<b0>+<unit>*<n>`. A string of at least
+/// `COMPACT_MIN` bytes is ALWAYS printed in its compact form when it has one (smallest period
+/// 1..=8 from byte 0, else from byte 1), by the harness and by the Lean driver alike, so the
+/// notation is canonical and the comparison of response lines stays exact. Requests may use `+`
+/// to concatenate any number of hex / `unit*n` segments. These two shadow the plain-hex helpers
+/// of `verif_harness` for everything in this file (short strings print as before).
+const COMPACT_MIN: usize = 1024;
+
+fn period(b: &[u8]) -> Option<usize> {
+    (1..=8usize).find(|&k| (k..b.len()).all(|i| b[i] == b[i - k]))
+}
+
+fn hex(b: &[u8]) -> String {
+    if b.len() >= COMPACT_MIN {
+        if let Some(k) = period(b) {
+            return format!("{}*{}", verif_harness::hex(&b[..k]), b.len());
+        }
+        if let Some(k) = period(&b[1..]) {
+            return format!("{}+{}*{}", verif_harness::hex(&b[..1]), verif_harness::hex(&b[1..1 + k]), b.len() - 1);
+        }
+    }
+    verif_harness::hex(b)
+}
+
+fn unhex(s: &str) -> Option<Vec<u8>> {
+    if !s.contains(['*', '+']) {
+        return verif_harness::unhex(s);
+    }
+    let mut out = vec![];
+    for seg in s.split('+') {
+        match seg.split_once('*') {
+            Some((u, n)) => {
+                let u = verif_harness::unhex(u)?;
+                if !n.bytes().all(|c| c.is_ascii_digit()) {
+                    return None;
+                }
+                let n: usize = n.parse().ok()?;
+                if u.is_empty() || n > (1 << 28) {
+                    return None;
+                }
+                out.extend(u.iter().cycle().take(n));
+            }
+            None => out.extend(verif_harness::unhex(seg)?),
+        }
+    }
+    Some(out)
+}
+
 #[allow(deprecated)]
 fn mode_of(s: &str) -> Option<CompressionMode> {
     Some(match s {
@@ -201,6 +251,51 @@ impl Enc {
     }
 }
 
+/// compression ratios the run reached: per mode the largest `plain : compressed` ratio of one
+/// chunk (and the chunk length it was reached on) and a histogram of ratio classes
+static RATIOS: std::sync::Mutex<BTreeMap<String, u64>> = std::sync::Mutex::new(BTreeMap::new());
+
+fn note_ratio(mode: char, plain: usize, comp: usize) {
+    if plain == 0 || comp == 0 {
+        return;
+    }
+    let r = plain / comp;
+    let class = match r {
+        0 => "<1",
+        1 => "1-2",
+        2..=15 => "2-16",
+        16..=127 => "16-128",
+        128..=511 => "128-512",
+        512..=899 => "512-900",
+        900..=999 => "900-1000",
+        _ => ">=1000",
+    };
+    let mut g = RATIOS.lock().unwrap();
+    *g.entry(format!("ratio.{mode}.{class}")).or_insert(0) += 1;
+    let best = g.entry(format!("max.{mode}")).or_insert(0);
+    if r as u64 > *best {
+        *best = r as u64;
+        g.insert(format!("maxlen.{mode}"), plain as u64);
+    }
+}
+
+/// write the ratio statistics into the session (distribution + extra)
+fn flush_ratios(s: &mut Session) {
+    let g = RATIOS.lock().unwrap();
+    for (k, v) in g.iter() {
+        if k.starts_with("ratio.") {
+            s.tally_n(&format!("compress_chunk.{k}:1"), *v);
+        }
+    }
+    for m in ['Z', '4'] {
+        if let Some(r) = g.get(&format!("max.{m}")) {
+            let len = g.get(&format!("maxlen.{m}")).copied().unwrap_or(0);
+            s.extra.insert(format!("max_compression_ratio_mode_{m}"), serde_json::json!({ "ratio_floor": r, "chunk_len": len }));
+            s.tally(&format!("compress_chunk.max-ratio.{m} = {r}:1 (chunk of {len} bytes)"));
+        }
+    }
+}
+
 /// what the harness knows about the program it generated (computed independently of the builder)
 struct Prog {
     lines: Vec<String>,
@@ -215,6 +310,8 @@ struct Prog {
     foreign_index: bool,
     expect_err: bool,
     shape: Vec<&'static str>,
+    /// a "large-chunk" program: chunk sizes of 16 KiB and more, highly compressible payloads
+    big: bool,
 }
 
 fn split(cs: usize, d: &[u8]) -> Option<Vec<Vec<u8>>> {
@@ -246,6 +343,7 @@ impl Prog {
             foreign_index: false,
             expect_err: false,
             shape: vec![],
+            big: false,
         }
     }
     /// graph of the real compressor on the given plain chunks for mode `m` (Z / 4 only)
@@ -258,6 +356,7 @@ impl Prog {
         let mut local = BTreeMap::new();
         for p in plains {
             if let Ok(c) = compress_chunk(p, cm) {
+                note_ratio(mc, p.len(), c.len());
                 local.insert((mc, p.clone()), c.clone());
                 self.tab.insert((mc, p.clone()), c);
             }
@@ -265,6 +364,22 @@ impl Prog {
         tab_str(local.iter())
     }
     fn payload(&self, rng: &mut Rng, max: usize) -> Vec<u8> {
+        if self.big && self.cs >= 16 * 1024 {
+            // large-chunk program: lengths around the (large) chunk size, content that deflate /
+            // LZ4 shrink by two to three orders of magnitude
+            let cs = self.cs.min(256 * 1024);
+            let n = match rng.below(8) {
+                0 => cs - 1,
+                1 | 2 => cs,
+                3 => cs + 1,
+                4 => 2 * cs + 1,
+                5 => rng.range(1, 64) as usize,
+                _ => rng.range(cs as u64 / 2, cs as u64) as usize,
+            }
+            .min(300 * 1024);
+            let kind = *rng.pick(&[Kind::Zero, Kind::Const, Kind::Period, Kind::ModeByteFirst]);
+            return compressible(rng, kind, n);
+        }
         let cs = self.cs.min(4096);
         let n = match rng.below(14) {
             0 => 0,
@@ -329,7 +444,11 @@ impl Prog {
                 self.lines.push(format!("mode {}", self.mode));
             }
             8..=13 => {
-                self.cs = *rng.pick(&[0usize, 1, 1, 2, 3, 5, 5, 16, 64, 64, 1024]);
+                self.cs = if self.big && rng.chance(4, 5) {
+                    *rng.pick(&[16usize << 10, 32 << 10, 64 << 10, 256 << 10, 1 << 20, usize::MAX])
+                } else {
+                    *rng.pick(&[0usize, 1, 1, 2, 3, 5, 5, 16, 64, 64, 1024])
+                };
                 self.lines.push(format!("cs {}", self.cs));
             }
             14..=19 => {
@@ -394,9 +513,254 @@ impl Prog {
             }
         }
     }
+    /// one chunk-producing call with the given payload under the program's current mode / chunk
+    /// size / encryption (modes N/Z/4 only): `add`, `mixed` (the builder's encryption as the
+    /// argument), `encdata` at the chunk's own position (the builder's encryption, else `other`),
+    /// `chunk` (ChunkData::new with the current mode)
+    fn emit(&mut self, c: &str, d: Vec<u8>, other: &Enc) {
+        let en = self.enc.clone();
+        match c {
+            "add" => {
+                let ch = split(self.cs, &d);
+                let tab = self.table_for(self.mode, ch.as_deref().unwrap_or(&[]));
+                self.lines.push(format!("add {} {}", hex(&d), tab));
+                self.shape.push(if en.is_some() { "add+enc" } else { "add" });
+                self.account(&d, ch, en.as_ref(), true);
+            }
+            "mixed" => {
+                let ch = split(self.cs, &d);
+                let tab = self.table_for(self.mode, ch.as_deref().unwrap_or(&[]));
+                match &en {
+                    Some(x) => self.lines.push(format!("mixed {} {} {}", hex(&d), x.toks(), tab)),
+                    None => self.lines.push(format!("mixed {} none {}", hex(&d), tab)),
+                }
+                self.shape.push(if en.is_some() { "mixed+enc" } else { "mixed" });
+                self.account(&d, ch, en.as_ref(), true);
+            }
+            "encdata" => {
+                let x = en.unwrap_or_else(|| other.clone());
+                self.keys.insert(x.name, x.key);
+                let here = self.plain_chunks.len();
+                let tab = self.table_for(self.mode, std::slice::from_ref(&d));
+                self.lines.push(format!("encdata {} {} {} {}", hex(&d), x.toks(), here, tab));
+                self.shape.push("encdata");
+                self.account(&d, Some(vec![d.clone()]), Some(&x), true);
+            }
+            _ => {
+                let tab = self.table_for(self.mode, std::slice::from_ref(&d));
+                self.lines.push(format!("chunk {} {} {}", self.mode, hex(&d), tab));
+                self.shape.push("chunk");
+                self.account(&d, Some(vec![d.clone()]), None, true);
+            }
+        }
+    }
     fn keys_str(&self) -> String {
         let v: Vec<String> = self.keys.iter().map(|(n, k)| format!("{n}:{}", hex(k))).collect();
         if v.is_empty() { "-".into() } else { v.join(",") }
+    }
+}
+
+// ---------------------------------------------------------------- highly compressible payloads in large single chunks
+
+/// content that the compressors shrink by orders of magnitude (deflate approaches 1030:1, LZ4
+/// 255:1 on a constant run)
+#[derive(Clone, Copy, Debug, PartialEq)]
+enum Kind {
+    /// all zero
+    Zero,
+    /// one random byte repeated
+    Const,
+    /// a random unit of 2..=8 bytes repeated
+    Period,
+    /// a mode byte N/Z/4/E/F followed by a constant run
+    ModeByteFirst,
+    /// zeros with 1..=4 random bytes at random places (printed in plain hex: sizes <= 64 KiB)
+    Sparse,
+}
+
+fn compressible(rng: &mut Rng, kind: Kind, n: usize) -> Vec<u8> {
+    match kind {
+        Kind::Zero => vec![0; n],
+        Kind::Const => vec![rng.byte(); n],
+        Kind::Period => {
+            let k = rng.range(2, 8) as usize;
+            let u = rng.bytes(k);
+            (0..n).map(|i| u[i % u.len()]).collect()
+        }
+        Kind::ModeByteFirst => {
+            let mut d = vec![rng.byte(); n];
+            if n > 0 {
+                d[0] = *rng.pick(&[b'N', b'Z', b'4', b'E', b'F']);
+            }
+            d
+        }
+        Kind::Sparse => {
+            let mut d = vec![0u8; n];
+            for _ in 0..rng.range(1, 4) {
+                if n > 0 {
+                    d[rng.below(n as u64) as usize] = rng.byte();
+                }
+            }
+            d
+        }
+    }
+}
+
+/// The class "a chunk the encoder's own compressor shrinks by a large factor": one chunk of
+/// 16 KiB .. 1 MiB (quick) / 4 MiB (thorough) of constant / short-period / sparse content, modes
+/// Z and 4, through every way of making one chunk (builder add_data plain / Salsa20 / ARC4,
+/// add_mixed_data, add_encrypted_data, add_chunk, BlteFile::compress, BlteFile::single_chunk), at
+/// position 0 and behind a leading small chunk, chunk size = payload, payload + 1, larger, the
+/// default and usize::MAX; plus payloads a large chunk size splits into several such chunks.
+/// Everything the decoder does per chunk (size limits, read loops, buffer growth) is driven far
+/// from the ratios <= 60:1 that payloads of a few KiB reach.
+fn compressible_family(s: &mut Session, rng: &mut Rng, thorough: bool, pool: &[(u64, [u8; 16])]) {
+    const K: usize = 1024;
+    let sizes: &[usize] = if thorough {
+        &[16 * K, 24 * K, 32 * K - 1, 32 * K, 32 * K + 1, 48 * K, 64 * K, 128 * K, 256 * K, 512 * K, 1024 * K, 4096 * K]
+    } else {
+        &[16 * K, 32 * K, 64 * K, 256 * K, 1024 * K]
+    };
+    let entries = ["add", "add+salsa", "add+arc4", "other", "compress", "single"];
+    let all_kinds = [Kind::Zero, Kind::Const, Kind::Period, Kind::ModeByteFirst, Kind::Sparse];
+    let mut turn = rng.below(64) as usize;
+    for &n in sizes {
+        for m in ["Z", "4"] {
+            for entry in entries {
+                // every kind of content on every route for chunks up to 64 KiB; above, the kinds
+                // take turns (Zero / Const / Period / ModeByteFirst; every size x mode sees each)
+                let kinds: Vec<Kind> = if n <= 64 * K || (thorough && n <= 1024 * K) {
+                    all_kinds.iter().copied().filter(|k| *k != Kind::Sparse || n <= 64 * K).collect()
+                } else {
+                    turn += 1;
+                    vec![all_kinds[turn % 4]]
+                };
+                for kind in kinds {
+                    let d = compressible(rng, kind, n);
+                    s.tally(&format!("compressible.len.{n}"));
+                    s.tally(&format!("compressible.mode.{m}"));
+                    s.tally(&format!("compressible.content.{kind:?}"));
+                    // chunk size: the payload fits into one chunk
+                    let cs = match rng.below(5) {
+                        0 => n,
+                        1 => n + 1,
+                        2 => 2 * n,
+                        3 => usize::MAX,
+                        _ if n <= 256 * K => 256 * K, // the default: no cs call
+                        _ => n,
+                    };
+                    match entry {
+                        "compress" => {
+                            let mut p = Prog::new();
+                            let cs = if cs == usize::MAX { 1 << 30 } else { cs };
+                            let tab = p.table_for(m, std::slice::from_ref(&d));
+                            s.tally("compressible.route.compress");
+                            entry_case(s, &format!("compress {cs} {m} {} {tab}", hex(&d)), true, false);
+                        }
+                        "single" => {
+                            let mut p = Prog::new();
+                            let tab = p.table_for(m, std::slice::from_ref(&d));
+                            s.tally("compressible.route.single_chunk");
+                            entry_case(s, &format!("single {m} {} {tab}", hex(&d)), true, false);
+                        }
+                        _ => {
+                            let mut p = Prog::new();
+                            p.big = true;
+                            if cs != 256 * K {
+                                p.cs = cs;
+                                p.lines.push(format!("cs {cs}"));
+                            }
+                            p.mode = m;
+                            p.lines.push(format!("mode {m}"));
+                            let mk = |rng: &mut Rng, et: u8| {
+                                let (name, key) = *rng.pick(pool);
+                                Enc { et, name, iv: rng.bytes(4).try_into().unwrap(), key }
+                            };
+                            let et = *rng.pick(&[0x53u8, 0x41]);
+                            let other = mk(rng, et);
+                            let call = match entry {
+                                "add" => "add",
+                                "add+salsa" | "add+arc4" => {
+                                    let e = mk(rng, if entry == "add+salsa" { 0x53 } else { 0x41 });
+                                    p.keys.insert(e.name, e.key);
+                                    p.lines.push(format!("enc {}", e.toks()));
+                                    p.enc = Some(e);
+                                    "add"
+                                }
+                                _ => {
+                                    // the remaining chunk-producing calls, plain or encrypted
+                                    if rng.chance(1, 2) {
+                                        let et = *rng.pick(&[0x53u8, 0x41]);
+                                        let e = mk(rng, et);
+                                        p.keys.insert(e.name, e.key);
+                                        p.lines.push(format!("enc {}", e.toks()));
+                                        p.enc = Some(e);
+                                    }
+                                    *rng.pick(&["mixed", "encdata", "chunk"])
+                                }
+                            };
+                            // half of the programs put a small chunk first, so that the large one
+                            // sits at block index 1 and under a chunk table also when plain
+                            if rng.chance(1, 2) {
+                                let k = rng.range(1, 5) as usize;
+                                let lead = rng.bytes(k);
+                                p.emit("add", lead, &other);
+                            }
+                            p.emit(call, d, &other);
+                            s.tally(&format!("compressible.route.{}{}", call, match &p.enc {
+                                Some(e) if call != "chunk" => if e.et == 0x53 { "+salsa20" } else { "+arc4" },
+                                None if call == "encdata" => if other.et == 0x53 { "+salsa20" } else { "+arc4" },
+                                _ => "",
+                            }));
+                            run_prog(s, &p);
+                        }
+                    }
+                }
+            }
+        }
+    }
+    // payloads that a large chunk size splits into several highly compressible chunks
+    // (the default 256 KiB on 1 MiB; 64 KiB on 3 x 64 KiB + 5), plain and encrypted
+    for (n, cs) in [(1024 * K, 256 * K), (3 * 64 * K + 5, 64 * K), (2 * 32 * K, 32 * K)] {
+        for m in ["Z", "4"] {
+            for et in [None, Some(0x53u8), Some(0x41)] {
+                if !thorough && et == Some(0x41) && n != 2 * 32 * K {
+                    continue;
+                }
+                let kind = *rng.pick(&[Kind::Zero, Kind::Const, Kind::Period, Kind::ModeByteFirst]);
+                let d = compressible(rng, kind, n);
+                let mut p = Prog::new();
+                p.big = true;
+                if cs != 256 * K {
+                    p.cs = cs;
+                    p.lines.push(format!("cs {cs}"));
+                }
+                p.mode = m;
+                p.lines.push(format!("mode {m}"));
+                let (name, key) = *rng.pick(pool);
+                let other = Enc { et: 0x53, name, iv: rng.bytes(4).try_into().unwrap(), key };
+                if let Some(et) = et {
+                    let e = Enc { et, ..other.clone() };
+                    p.keys.insert(e.name, e.key);
+                    p.lines.push(format!("enc {}", e.toks()));
+                    p.enc = Some(e);
+                }
+                let call = *rng.pick(&["add", "add", "mixed"]);
+                p.emit(call, d, &other);
+                s.tally("compressible.split-into-large-chunks");
+                s.tally(&format!("compressible.content.{kind:?}"));
+                run_prog(s, &p);
+            }
+        }
+    }
+    if thorough {
+        for m in ["Z", "4"] {
+            let d = compressible(rng, Kind::Zero, 1024 * K);
+            let mut p = Prog::new();
+            let tab = p.table_for(m, &split(256 * K, &d).unwrap());
+            s.tally("compressible.split-into-large-chunks");
+            entry_case(s, &format!("compress {} {m} {} {tab}", 256 * K, hex(&d)), true, false);
+        }
     }
 }
 
@@ -1336,6 +1700,28 @@ fn main() {
     for k in 0..n_prog {
         let mut p = Prog::new();
         let max = if k % 100 == 0 { 3000 } else if k % 7 == 0 { 400 } else { 48 };
+        // one program in 25 is a large-chunk program: chunk sizes of 16 KiB .. 256 KiB (default),
+        // payload lengths around them, constant / periodic content, compressing modes
+        if k % 25 == 24 {
+            p.big = true;
+            p.cs = *rng.pick(&[16usize << 10, 16 << 10, 32 << 10, 64 << 10, 256 << 10]);
+            if p.cs != 256 << 10 {
+                p.lines.push(format!("cs {}", p.cs));
+            }
+            p.mode = *rng.pick(&["Z", "Z", "4"]);
+            p.lines.push(format!("mode {}", p.mode));
+            if rng.chance(1, 2) {
+                let e = p.some_enc(&mut rng, &pool);
+                p.lines.push(format!("enc {}", e.toks()));
+                p.enc = Some(e);
+            }
+            for _ in 0..rng.range(1, 4) {
+                p.op(&mut rng, &pool, max);
+            }
+            s.tally("random.program.large-chunk");
+            run_prog(&mut s, &p);
+            continue;
+        }
         // most programs fix a small chunk size and a mode first, so boundaries are reached
         if rng.chance(9, 10) {
             p.cs = *rng.pick(&[1usize, 2, 3, 5, 5, 16, 64, 64, 1024]);
@@ -1362,6 +1748,10 @@ fn main() {
     entry_points(&mut s, &mut rng, args.thorough(), &pool);
     let mut s = exit_if_hung(s);
 
+    // highly compressible payloads in large single chunks
+    compressible_family(&mut s, &mut rng, args.thorough(), &pool);
+    let mut s = exit_if_hung(s);
+
     // the default chunk size (private constant 256 KiB): one payload just above it, plain and
     // encrypted, so that the default-path chunking and a 64-byte-block-crossing keystream are hit
     for enc in [false, true] {
@@ -1384,5 +1774,6 @@ fn main() {
         s.tally("default-chunk-size.program");
         run_prog(&mut s, &p);
     }
+    flush_ratios(&mut s);
     s.finish();
 }
